@@ -52,6 +52,12 @@ def xmlEscape (canonical : Bool) (s : Bytes) : Bytes :=
 
 def newLine : Bytes := [10]
 
+/-- Text written inside a CDATA section: as is, except that `]]>` is split over two sections. -/
+def cdataText : Bytes → Bytes
+  | 93 :: 93 :: 62 :: r => b!"]]]]><![CDATA[>" ++ cdataText r
+  | b :: r => b :: cdataText r
+  | [] => []
+
 /-- Who the parent is, as far as `xml_encode_tag` looks: nothing (root), an element, or another
     kind of node. -/
 inductive Parent where
@@ -132,7 +138,7 @@ def xmlText (c : XCfg) (s : Bytes) (st : XSt) : Except Err XSt :=
   if skipWs && c.ignoreEmpty && s.all isSpaceC then .ok st
   else
     let s := if skipWs && c.removeBlanks then stripBlanks s else s
-    if st.inCdata then .ok { st with out := st.out ++ s, inContent := true }
+    if st.inCdata then .ok { st with out := st.out ++ cdataText s, inContent := true }
     else
       let isType := match st.curTag with
         | some r => r.page == 1 && r.token == 0x13
